@@ -27,7 +27,7 @@ Definition is_ok_true (r : res bool) : bool := match r with Ok true => true | _ 
 Definition name_at (names : list string) (i : nat) : string := nth i names EmptyString.
 
 Definition cc_parts (names : list string) (c : ccase) : list bool :=
-  match lookup (name_at names (cc_engine c)) builtin_engines with
+  match lookup (name_at names (cc_engine c)) (builtin_engines ++ extra_compilers) with
   | None => [false]
   | Some e =>
       [ is_mode e COMPILER && inN (cc_ck c) (e_compilations e);
